@@ -21,6 +21,8 @@ func init() {
 		},
 		Run: runC31,
 		Controls: []Control{
+			{Name: "down-only-tears-down-up-adjacencies", File: "protocols/isis/server/neighbor.go", Old: "func (n *neighbor) down() {\n", New: "func (n *neighbor) down() {\n\tif n.getState() != packet.P2PAdjStateUp {\n\t\treturn\n\t}\n", Expect: "timeout-covers-every-live-state"},
+			{Name: "refactor-down-skips-when-already-down", Silent: true, File: "protocols/isis/server/neighbor.go", Old: "func (n *neighbor) down() {\n", New: "func (n *neighbor) down() {\n\tif n.getState() == packet.P2PAdjStateDown {\n\t\treturn\n\t}\n"},
 			{Name: "timeout-retaken-every-tick", File: "protocols/isis/server/neighbor.go", Old: "\t\t\tif state != packet.P2PAdjStateDown {\n\t\t\t\tif n.timedOut() {\n\t\t\t\t\tn.down()\n\t\t\t\t\tstate, change = n.getStateAndTime()\n\t\t\t\t}\n\t\t\t}\n", New: "\t\t\tif n.timedOut() {\n\t\t\t\tn.down()\n\t\t\t\tstate, change = n.getStateAndTime()\n\t\t\t}\n", Expect: "timeout-covers-every-live-state"},
 			{Name: "short-three-way-tlv-ignored", File: "protocols/isis/server/neighbor.go", Old: "\tp2pAdjState := getP2PAdjTLV(hello.TLVs)\n\tif p2pAdjState == nil {\n", New: "\tp2pAdjState := getP2PAdjTLV(hello.TLVs)\n\tif p2pAdjState == nil || p2pAdjState.Length() < packet.P2PAdjacencyStateTLVLenWithNeighbor {\n", Expect: "hello-drives-adjacency-state"},
 			{Name: "refactor-three-way-result-in-local", Silent: true, File: "protocols/isis/server/neighbor.go", Old: "\tif n.getState() != packet.P2PAdjStateUp && n.p2pAdjTLVContainsSelf(p2pAdjState) {", New: "\tnamesUs := n.p2pAdjTLVContainsSelf(p2pAdjState)\n\tif n.getState() != packet.P2PAdjStateUp && namesUs {"},
@@ -209,6 +211,37 @@ func runC31(c *core.Ctx) {
 			}
 			c.Check(notDown, "timeout-covers-every-live-state", checker.Name()+" enters Down once", dc.Pos(), "down() is called on every tick on which the holding time is expired, also for an adjacency that is already Down: each call stamps a new state-change time, so the removal delay never elapses and a silent neighbor stays in the table forever")
 		}
+		// down() itself: whatever the current state (Init as well as Up), the adjacency ends in Down — every exit passes
+		// setState(Down) unless the state is already known to be Down
+		{
+			c.Analysed(down)
+			sets := func(nd ast.Node) bool {
+				return core.NodeHas(nd, func(x ast.Node) bool {
+					cl, ok := x.(*ast.CallExpr)
+					return ok && core.Callee(down.Pkg, cl) == setState.Obj && len(cl.Args) == 1 && isConst(down, cl.Args[0], downC)
+				})
+			}
+			rets, implicit := core.ExitsWithout(p.CFG(down), sets)
+			bad := 0
+			for _, r := range rets {
+				already := false
+				for _, ft := range core.FactsAt(down, r) {
+					be, isB := core.Unparen(ft.Expr).(*ast.BinaryExpr)
+					if isB && (isConst(down, be.Y, downC) || isConst(down, be.X, downC)) && ((be.Op == token.EQL && ft.Truth) || (be.Op == token.NEQ && !ft.Truth)) {
+						already = true
+					}
+				}
+				if !already {
+					bad++
+					c.Check(false, "timeout-covers-every-live-state", fmt.Sprintf("%s return #%d leaves the adjacency Down", down.Name(), retIndex(down, r)), r.Pos(),
+						"neighbor.down() returns without setting the Down state although the adjacency is not known to be Down already: an adjacency that is still initialising (never came Up) is not taken Down by the holding-time expiry and is therefore never removed")
+				}
+			}
+			if bad == 0 {
+				c.Check(!implicit || len(rets) == 0 && setsSomewhere(down, sets), "timeout-covers-every-live-state", down.Name()+" leaves the adjacency Down from every state", down.Decl.Pos(),
+					"neighbor.down() can end without setting the Down state")
+			}
+		}
 		okDisp := false
 		for _, dc := range core.Calls(checker.Pkg, checker.Decl.Body, func(o *types.Func) bool { return o == dispose.Obj }) {
 			for _, ft := range core.CtlFactsAt(checker, dc) {
@@ -315,4 +348,15 @@ func runC31(c *core.Ctx) {
 			c.Check(ok, "lsp-lists-up-adjacencies", fmt.Sprintf("%s regenerates the LSP after the state change to %s", proc.Name(), core.ExprString(call.Args[0])), call.Pos(), "an adjacency state change is not followed by a regeneration of the local LSP: the LSP keeps advertising the old set of adjacencies")
 		}
 	}
+}
+
+func setsSomewhere(f *core.Fn, pred func(ast.Node) bool) bool {
+	found := false
+	ast.Inspect(f.Decl.Body, func(n ast.Node) bool {
+		if st, ok := n.(ast.Stmt); ok && pred(st) {
+			found = true
+		}
+		return true
+	})
+	return found
 }
